@@ -38,6 +38,10 @@ type GBNConf struct {
 	ChunkSrvSet bool
 	ChunkSrv    int
 	Lat         time.Duration // one-way base latency
+	// JitterMax > 0: a third of the transport calls of both links take a
+	// PRNG-chosen time up to JitterMax (seeded with JitterSeed).
+	JitterMax  time.Duration
+	JitterSeed int64
 }
 
 func (c GBNConf) String() string {
@@ -45,9 +49,13 @@ func (c GBNConf) String() string {
 	if c.ChunkSrvSet {
 		chunk = fmt.Sprintf("%d/%d", c.Chunk, c.ChunkSrv)
 	}
-	return fmt.Sprintf("N=%d static=%v resend=%v hs=%v mult=%d freq=%d boost=%.2f ping=%v/%v,%v/%v chunk=%s lat=%v",
+	jit := ""
+	if c.JitterMax > 0 {
+		jit = fmt.Sprintf(" jitter<=%v", c.JitterMax)
+	}
+	return fmt.Sprintf("N=%d static=%v resend=%v hs=%v mult=%d freq=%d boost=%.2f ping=%v/%v,%v/%v chunk=%s lat=%v%s",
 		c.N, c.Static, c.Resend, c.HSTimeout, c.Mult, c.Freq, c.Boost,
-		c.PingC, c.PongC, c.PingS, c.PongS, chunk, c.Lat)
+		c.PingC, c.PongC, c.PingS, c.PongS, chunk, c.Lat, jit)
 }
 
 func (c GBNConf) opts(ping, pong time.Duration, chunk int) []gbn.Option {
@@ -107,12 +115,17 @@ func (p *Pair) Server() *gbn.GoBackNConn { return p.sPtr.Load() }
 
 // NewPair creates the links of a pair without connecting.
 func NewPair(conf GBNConf) *Pair {
-	return &Pair{
+	p := &Pair{
 		Conf: conf,
 		C2S:  sim.NewLink("c2s", conf.Lat),
 		S2C:  sim.NewLink("s2c", conf.Lat),
 		T0:   time.Now(),
 	}
+	if conf.JitterMax > 0 {
+		p.C2S.SetJitter(conf.JitterSeed, 1.0/3, conf.JitterMax)
+		p.S2C.SetJitter(conf.JitterSeed+1, 1.0/3, conf.JitterMax)
+	}
+	return p
 }
 
 // Connect runs both constructors (the GBN handshake) concurrently and waits
